@@ -84,9 +84,10 @@ def impl_render(obj, ctx, mode):
 
 
 class Corr:
-    def __init__(self, run: core.Run, prefix="corr"):
+    def __init__(self, run: core.Run, prefix="corr", extra_import=None):
         self.run = run
         self.prefix = prefix
+        self.extra_import = extra_import      # a specification module whose functions a `wrap` may apply to the dumped term
         self.items = []      # (objid, coq_term_text)
         self.cases = []      # (objid, ctxname, ctx, mode, exp_sql, exp_vals, meta)
         self.unmodelled = {}
@@ -98,7 +99,7 @@ class Corr:
     def unexpected_unmodelled(self):
         return {k: v for k, v in self.unmodelled.items() if not k.startswith(self.TOLERATED)}
 
-    def add(self, obj, ctx_modes, meta=None, ref=None):
+    def add(self, obj, ctx_modes, meta=None, ref=None, wrap=None):
         """ctx_modes: list of (name, SqlContext, mode). Returns list of (sql, vals) per ctx (None if skipped).
         ref: an object built with the explicit constructors that says which tree `obj` (built through a convenience API) IS; it is
         the one dumped, `obj` is the one rendered."""
@@ -112,6 +113,14 @@ class Corr:
             k = "dump error %s" % type(e).__name__
             self.unmodelled[k] = self.unmodelled.get(k, 0) + 1
             return None
+        if wrap is not None:
+            # the model term is a specification function applied to the dumped tree (e.g. Ref.Replace.rep old new <tree>)
+            try:
+                text = wrap(text)
+            except Unmodelled as e:
+                k = str(e)[:60]
+                self.unmodelled[k] = self.unmodelled.get(k, 0) + 1
+                return None
         oid = len(self.items)
         self.items.append((oid, text))
         outs = []
@@ -138,7 +147,8 @@ class Corr:
         shards, index = [], []
         for s in range(0, len(objs), shard_objs):
             chunk = objs[s:s + shard_objs]
-            lines = [HEAD if pcheck is None else HEAD.replace("Model.Render.\n", "Model.Render %s.\n" % pcheck[0]) + pcheck[1] + JUDGE2]
+            head = HEAD if not self.extra_import else HEAD.replace("Model.Render.\n", "Model.Render %s.\n" % self.extra_import)
+            lines = [head if pcheck is None else head.replace("Model.Render", "Model.Render %s" % pcheck[0], 1) + pcheck[1] + JUDGE2]
             idxs = []
             for o in chunk:
                 lines.append("Definition t%d : term := %s." % (o, self.items[o][1]))
@@ -173,7 +183,8 @@ class Corr:
     def debug_case(self, i):
         """What the model prints for case i (for replay files): (sql, [value ids]) or an EXC: text."""
         oid, name, ctx, mode, sql, vals, _ = self.cases[i]
-        text = (HEAD + "Definition t : term := %s.\n" % self.items[oid][1] +
+        text = ((HEAD if not self.extra_import else HEAD.replace("Model.Render.\n", "Model.Render %s.\n" % self.extra_import)) +
+                "Definition t : term := %s.\n" % self.items[oid][1] +
                 "Definition r := render %s %s t.\n" % (ctx_coq(ctx), pz_coq(mode)) +
                 'Goal True. idtac "@@SQL". Abort.\n'
                 "Eval vm_compute in (match r with Ok (s, _) => s | Exn e => L \"EXC:\" ++ exn_name e end).\n"
